@@ -11,7 +11,7 @@
      src/cache_manager.cc      ParseUrl, ParseHeaders, CheckPassword, ActionProtection, PasswdGet, start
      src/mgr/QueryParams.cc    QueryParams::Parse, ParseParamValue
      src/HttpHeader.cc         HttpHeader::getAuthToken (base64 through the linked libnettle: B64Model.b64_decode true)
-     src/String.cc             String::cmp (C-string comparison: stops at the first NUL)
+     src/String.cc             String::cmp (C-string comparison: stops at the first NUL; CheckPassword also compares lengths)
    The built-in `manager` ACL text, the URL prefixes and the keywords come from gen/Mgr_gen.v (regenerated from the
    tree on every run).  The action table (name, isPwReq) is an ARGUMENT of every function: the theorems hold for all
    tables; the check reads the real one from the running squid (action `menu`).
@@ -240,9 +240,12 @@ Definition access_allowed (mgr local : bool) (rules : list rule) : bool := eval_
 (* ------------------------------------------------------------------ *)
 (* internal requests                                                    *)
 
-(* checkForInternalAccess (global_internal_static does not apply to manager URLs) *)
+(* checkForInternalAccess (global_internal_static does not apply to manager URLs).
+   Since 6b03ef7 only http(s) URLs can address internal objects: `httpLike && port == getMyPort() && ...` *)
+Definition http_like (s : scheme) : bool := match s with SHttp | SHttps => true | _ => false end.
 Definition is_internal (e : env) (q : request) : bool :=
   starts_with (q_path q) internal_pfx
+  && http_like (q_scheme q)
   && (q_port q =? e_myport e)
   && bytes_eqb_ci (norm_host (q_host q)) (e_myhost e).
 
@@ -412,14 +415,18 @@ Definition string_ne (a b : bytes) : bool :=
   | _, _ => negb (list_eqb (cstr a) (cstr b))
   end.
 
-(* CacheManager::CheckPassword: true = refused *)
+(* CacheManager::CheckPassword: true = refused.  Since 5479385 the last line is
+   `password.size() != strlen(pwd) || password != pwd` (pwd is a char*: strlen = length of cstr pwd) *)
 Definition check_password (pl : list pwent) (a : action) (password : bytes) : bool :=
   match passwd_get pl (a_name a) with
   | None => a_pwreq a
   | Some pwd =>
     if list_eqb pwd kw_disable then true
     else if list_eqb pwd kw_none then false
-    else match password with [] => true | _ => string_ne password pwd end
+    else match password with
+         | [] => true
+         | _ => negb (lenN password =? lenN (cstr pwd)) || string_ne password pwd
+         end
   end.
 
 (* ------------------------------------------------------------------ *)
